@@ -123,7 +123,14 @@ def E():
     CA = Float[CDuck, "a"]
     CAB = Float[CDuck, "a b"]
     e.update(Duck=Duck, CDuck=CDuck, FNode=FNode, LeafT=LeafT, Vec=Vec, CA=CA, CAB=CAB)
-    e["F"] = {d: Float[Duck, d] for d in ["a", "a b", "?n", "b a"]}
+    e["F"] = {d: Float[Duck, d] for d in ["a", "a b", "?n", "b a", "n"]}
+    e["SYM"] = Float[Duck, "n+1"]  # one alias object, used under several bindings
+    import numpy as np
+
+    e["point_t"] = np.dtype([("x", np.float32), ("y", np.float32)])
+    e["label_t"] = np.dtype([("first", np.uint8), ("second", np.int8)])
+    e["Point"] = jaxtyping.make_numpy_struct_dtype(e["point_t"], "Point")[np.ndarray, "k"]
+    e["Label"] = jaxtyping.make_numpy_struct_dtype(e["label_t"], "Label")[np.ndarray, "k"]
     e["PT"] = PyTree[Float[Duck, "a"]]
     e["PTC"] = PyTree[CA, "T"]
     e["PTq"] = PyTree[Float[Duck, "?n"], "T"]
@@ -427,6 +434,16 @@ def battery():
         out.append(("decorated bad", "returned"))
     except Exception as ex:  # noqa: BLE001
         out.append(("decorated bad", type(ex).__name__))
+    # annotation objects reused under DIFFERENT bindings / for DIFFERENT structured dtypes
+    import numpy as np
+
+    with jaxtyped("context"):
+        out.append(("sym alias n=3 shape 4", (c(Duck((3,)), F["n"]), c(Duck((4,)), e["SYM"]), c(Duck((6,)), e["SYM"]))))
+    with jaxtyped("context"):
+        out.append(("sym alias n=5 shape 4", (c(Duck((5,)), F["n"]), c(Duck((4,)), e["SYM"]), c(Duck((6,)), e["SYM"]))))
+    pa, la = np.zeros(2, e["point_t"]), np.zeros(2, e["label_t"])
+    out.append(("struct point", (c(pa, e["Point"]), c(pa, e["Label"]))))
+    out.append(("struct label", (c(la, e["Point"]), c(la, e["Label"]))))
     out.append(("config", (config.jaxtyping_disable, config.jaxtyping_remove_typechecker_stack)))
     out.append(("name format", jaxtyping.get_array_name_format()))
     out.append(("meta_path clean", not any(type(f).__name__ == "_JaxtypingFinder" for f in sys.meta_path)))
@@ -434,6 +451,18 @@ def battery():
     out.append(("[internal] stack depth", adapter.stack_depth()))
     out.append(("[internal] flags", adapter.flags()))
     return tuple(out)
+
+
+TRUTH = {
+    "bare wrong dtype": False, "bare wrong dtype Vec": False, "bare non-array Vec": False, "bare non-array CA": False, "bare wrong rank": False,
+    "bare wrong class": False, "bare ? outside PyTree": "AnnotationError", "bare Int": False, "top-level print_bindings": "\n",
+    "ctx a=2": True, "ctx a=3 rejected": False, "ctx Vec": True, "ctx Vec rejected": False,
+    "pt ok": True, "pt bad": False, "pt wrong dtype leaf": False, "ptq ok": True, "ptq bad": False, "ptq wrong structure": False,
+    "ctx T unbound composite": "AnnotationError", "decorated ok": "returned", "decorated bad": "TypeCheckError",
+    "sym alias n=3 shape 4": (True, True, False), "sym alias n=5 shape 4": (True, False, True),
+    "struct point": (True, False), "struct label": (False, True),
+    "config": (False, False), "name format": "dtype_and_shape", "meta_path clean": True, "cache_from_source restored": True,
+}
 
 
 def reset():
@@ -494,10 +523,19 @@ def _shard(job):
     ops = _ops()
     names = list(ops)
     pristine = battery()
-    if battery() != pristine:
-        raise common.HarnessError("probe battery is not idempotent in a pristine process")
+    viols_pre = []
+    wrong = [(k, v, TRUTH[k]) for k, v in pristine if k in TRUTH and v != TRUTH[k]]
+    if wrong and job.get("first"):
+        for k, v, t in wrong:
+            viols_pre.append(Violation(key=f"C12:pristine-battery:{k.replace(' ', '-')}", what=f"in a fresh process the probe {k!r} gives {v!r}, the documented answer is {t!r} (probes are made in a fixed order with shared annotation objects)", replay=dict(history=[], fault=None)).to_json())
+    second = battery()
+    if second != pristine:
+        if job.get("first"):
+            diff = [(p[0], p[1], q[1]) for p, q in zip(pristine, second) if p != q]
+            viols_pre.append(Violation(key=f"C12:battery-not-idempotent:{diff[0][0].replace(' ', '-')}", what=f"the probe battery, run twice in a fresh process, gives different results: {diff[:3]}", replay=dict(history=[], fault=None)).to_json())
+        pristine = second
     stats = dict(histories=0, faulted_runs=0, fault_points=0, batteries=0, ops_executed=0)
-    viols, samples = [], []
+    viols, samples = list(viols_pre), []
 
     def run_op(n):
         try:
@@ -594,6 +632,7 @@ def run(ctx):
     for n in names:
         work.append(("fault", n))
     jobs = [dict(work=[work[i] for i in idx]) for idx in common.shards(len(work), common.NCPU * 2, ctx.seed)]
+    jobs[0]["first"] = True
     outs = common.pmap(_shard, jobs)
     if sorted(outs[0][3]) != sorted(names):
         raise common.HarnessError("operation catalogue mismatch")
@@ -625,6 +664,10 @@ def replay(rep):
         sys.path.insert(0, common.VERIF_DIR)
     ops = _ops()
     pristine = battery()
+    if not rep["history"]:
+        wrong = [(k, v, TRUTH[k]) for k, v in pristine if k in TRUTH and v != TRUTH[k]]
+        again = battery()
+        return dict(pristine_vs_documented=wrong, idempotent=again == pristine, violates=bool(wrong) or again != pristine)
     outs = []
     f = rep.get("fault")
     for n in rep["history"]:
